@@ -1251,11 +1251,27 @@ class World:
 
     async def restart(self, kill=False):
         """kill=True: the process is killed at this (quiescent) point instead of shut down."""
-        if kill:
-            await self.rig.kill_restart()
-            self.stats["kill_restarts"] += 1
-        else:
-            await self.rig.restart()
+        # half of the new starts include what a real process start does first: the scan of every recorded folder; now and then
+        # the stat of one folder fails once during that scan (ESTALE: a spool on a network file system) -- the folder is there
+        scan = self.opts.get("startup_scan", True) and self.rnd.random() < 0.5
+        self.rig.startup_scan = scan
+        self.rig.startup_stat_fault = None
+        if scan and self.opts.get("startup_stat_fault", True) and self.rnd.random() < 0.4:
+            cands = [b.name for b in self.boxes.values() if not b.noselect and b.name != "INBOX"]
+            if cands:
+                self.rig.startup_stat_fault = "/" + self.rnd.choice(cands)
+                self.stats["restarts_with_a_stat_fault_in_the_scan"] += 1
+        try:
+            if kill:
+                await self.rig.kill_restart()
+                self.stats["kill_restarts"] += 1
+            else:
+                await self.rig.restart()
+        finally:
+            self.rig.startup_scan = False
+            self.rig.startup_stat_fault = None
+        if scan:
+            self.stats["restarts_with_startup_scan"] += 1
         self.sessions = []
         self.obs = self.rig.session("O")
         for b in self.boxes.values():
